@@ -537,7 +537,7 @@ def giveUps : Nat → CC → Nat
   | fuel + 1, cc =>
     match nextChar cc with
     | (some c, cc') => giveUps fuel (noteChar cc' c)
-    | (none, cc') => if cc'.inDirectiveLine then 1 + giveUps fuel { cc' with inDirectiveLine := false } else 1
+    | (none, cc') => if cc'.inDirectiveLine then 1 + giveUps fuel { cc' with inDirectiveLine := false, atLineStart := true } else 1
 
 /-- every byte pulled is accounted in `total_bytes` or belongs to one of the at most 4-byte sequences on which
 `next_char` gave up -/
@@ -596,7 +596,7 @@ theorem pull_invariant : ∀ (fuel : Nat) (cc : CC),
         simp only at hp ⊢
         by_cases hd : cc'.inDirectiveLine = true
         · simp only [hd, if_true]
-          have := ih { cc' with inDirectiveLine := false }
+          have := ih { cc' with inDirectiveLine := false, atLineStart := true }
           simp only at this ⊢
           omega
         · simp only [hd, Bool.false_eq_true, if_false]
